@@ -3,7 +3,7 @@
 # change in /verif/seeded, in a scratch copy (worktree of /repo + copy of /verif) so that /repo itself is never touched
 # while work goes on.  Results: /tmp/seedeval/results.tsv
 set -u
-S=/tmp/seedeval
+S=${S:-/tmp/seedeval}   # scratch directory; several evaluations can run side by side with different S
 rm -rf $S/verif; mkdir -p $S
 [ -d $S/repo ] || git -C /repo worktree add -q --detach $S/repo HEAD
 git -C $S/repo checkout -q --detach $(git -C /repo rev-parse HEAD) && git -C $S/repo checkout -q -- .
@@ -17,6 +17,8 @@ out=$S/results.tsv; : > $out
 claimed=$(python3 -c "import json;print(' '.join(c['property_id'] for c in json.load(open('MANIFEST.json'))['checks']))")
 for d in $S/verif/seeded/*/; do
   id=$(basename $d); prop=${id%%-*}; [ -n "${ONLY:-}" ] && ! echo "$id" | grep -q "$ONLY" && continue
+  # SHARD=i/n: only every n-th seed, starting with the i-th
+  n_seen=$((${n_seen:--1}+1)); if [ -n "${SHARD:-}" ]; then [ $((n_seen % ${SHARD#*/})) -eq ${SHARD%/*} ] || continue; fi
   git -C $S/repo checkout -q -- . ; git -C $S/repo apply $d/patch.diff || { echo -e "$id\tPATCH-FAILED" >> $out; continue; }
   plist="$prop"; [ "${ALL:-0}" = "1" ] && plist="$claimed"
   for p in $plist; do
